@@ -18,7 +18,7 @@ CHECKS = [
           "bursts, bursts of 130-300 connections that send nothing, a connection left idle until the worker stops, a consumer failure (in-memory, or a RabbitMQ server-side cancel "
           "whose restart is refused), a worker without actors, jobs and probes during a slow graceful shutdown; oracle 200/503/404 as of the moment the request is "
           "sent, port open exactly while run() runs, jobs undisturbed. Protocol layer also: request targets of 12-5000 characters and a "
-          "CPU-time budget (2 s of process CPU time per request, the computation is interrupted): data_received must not block the loop.",
+          "CPU-time budget (2 s of process CPU time per request, the computation is interrupted): data_received must not block the loop; the health status may turn 503 between two chunks of a request - an answer tells the status in force when it was written.",
   "note": "Trusted base: Hypothesis, atheris 3.1 (bytecode instrumentation of the protocol methods), the oracle in harness/checks/c20.py. Socket "
           "layer uses real time and loopback sockets; client-side timeouts are counted inconclusive."},
  {"property_id": "C01", "level": "fault_enumeration", "design_ref": "DESIGN.md §4 C01",
@@ -29,7 +29,7 @@ CHECKS = [
           "loop-step indices on a deterministic loop, so a failing interleaving replays exactly. Statistical over histories; the thorough "
           "tier additionally enumerates every cancellation step of every terminal call over a pool of pre-states (cancel-* sub-checks; sampled in "
           "quick). 'launch'/'collect' rounds keep several consume calls of different clients in flight at once under unequal simulated "
-          "latencies; consumers are paused and resumed (or finished while paused) in between; a connected broker is connected again (idempotent). long-lived-*: a consumer works through 60-1040 messages beside a "
+          "latencies; consumers are paused and resumed (or finished while paused) in between; a connected broker is connected again (idempotent); some messages carry a time-to-live that runs out while they wait or are held. long-lived-*: a consumer works through 60-1040 messages beside a "
           "message it once took and returned and that another consumer of the same process now holds, then finishes. A directed block puts "
           "several delayed messages on one due instant and consumes them one by one.",
   "note": _MODEL + _SRV + " One open known finding (D9: RabbitMQ requeue is ack+publish, not atomic) is excluded by signature."},
@@ -64,7 +64,7 @@ CHECKS = [
           "(next_execution_time, delay_until, Job.deferred_until), arrival vs consumer-start interleavings; a consumer consumes continuously "
           "for a 40 s virtual horizon. Oracles: never handed to a NORMAL consumer before T-1ms; delivered within a per-broker bound after T; "
           "far-future messages stay delayed; visible through the DELAYED category only, reject keeps them delayed. 'never forgotten' is decided "
-          "as 'within the stated bound'. Also: Job.deferred_by forms, a topic-filtered consumer beside a run of foreign delayed messages, non-UTC host zones (fixed and on daylight-saving time), messages carrying both a period and a retry time.",
+          "as 'within the stated bound'. Also: Job.deferred_by forms, a topic-filtered consumer beside a run of foreign delayed messages, non-UTC host zones (fixed and on daylight-saving time), messages carrying both a period and a retry time, messages the consumer itself puts back with a retry time (requeue).",
   "note": _MODEL + _SRV + " Open known findings D19a/D19b (RabbitMQ head-of-line blocking of per-message TTL) are excluded by signature."},
  {"property_id": "C06", "level": "exploration", "design_ref": "DESIGN.md §4 C06",
   "technique": "property-based testing of reschedule arithmetic over generated iteration programmes (pinned clock) plus worker-level recurring scenarios on 3 brokers",
@@ -83,7 +83,7 @@ CHECKS = [
           "key/priority/payload/parameters equal what Job.enqueue() returned and the configured settings, and the actor's arguments equal an "
           "independent JSON normalisation (inline and bucket transport); a requeue with a new payload, a second job re-using the args_id "
           "over another connection, a worker that is already consuming while the producer's bucket store is slow, and a worker whose first look-up of the "
-          "argument bucket fails (the actor is called with the job's arguments or not at all).",
+          "argument bucket fails (the actor is called with the job's arguments or not at all); routing keys with priorities outside the three named levels through the broker API.",
   "note": _MODEL + _SRV},
  {"property_id": "C08", "level": "exploration", "design_ref": "DESIGN.md §4 C08",
   "technique": "property-based testing over generated actor signatures (exec-ed source, real CPython binding) and payloads against an independent binder; converter differential; output round trip",
@@ -104,7 +104,7 @@ CHECKS = [
   "text": "Routers, overrides, inclusion orders, worker subsets and job (name, queue) pairs are generated (names prefix-related on purpose); the "
           "model says which registration, if any, must run each job exactly once; every other message must stay waiting, unchanged and "
           "consumable by a later consumer of its topic; own jobs must finish within a bound; the worker's actor table must equal the "
-          "last-wins union. Registrations with or without explicit queue / name (router defaults), routers handed over, included later or through an intermediate router.",
+          "last-wins union. Registrations with or without explicit queue / name (router defaults), routers handed over, included later or through an intermediate router; an already-expired message somewhere in the traffic.",
   "note": _MODEL + _SRV + " Open known finding D20b (RabbitMQ topic filtering by reject+requeue can block/ping-pong) is excluded by signature."},
  {"property_id": "C12", "level": "exploration", "design_ref": "DESIGN.md §4 C12",
   "technique": "property-based testing of time-to-live boundaries on a virtual clock (delivery instant = expiry + generated epsilon, exact 0 included), broker and worker level, 3 brokers",
@@ -113,13 +113,14 @@ CHECKS = [
           "with identical content; before expiry delivered and never dead-lettered; cases inside the latency slack band counted unconstrained; "
           "a broker spinning on an expiring message (step watchdog) is reported; 1-4 adjacent copies of the expiring message; time-to-live values from seconds to 400 days (scheduled long ago). idle-*: the consumer has been polling an empty queue for "
           "0.05-3.5 s when a message arrives that expired 1 ms - 1.5 s earlier (or is clearly alive). ttl of 0, 1 µs and 0.5 s and non-UTC host zones are drawn; "
-          "a rescheduled message expires at reschedule time + ttl.",
+          "a rescheduled message expires at reschedule time + ttl. saturated-*: the worker is at its tasks_limit when a short-lived message arrives (possibly into a "
+          "paused consumer's prefetch window); the instant the consumer hands it to the worker is observed - after the expiry is an expired delivery.",
   "note": _MODEL + _SRV},
  {"property_id": "C13", "level": "exploration", "design_ref": "DESIGN.md §4 C13",
   "technique": "scenario property-based testing of stored results against the model's latest-execution outcome, plus fault-injection differential on store_bucket",
   "text": _WORKER + " Fault sub-check makes the k-th result store_bucket call raise and requires dispositions and final places to equal "
           "the fault-free run of the same generated scenario. The stop sub-check injects the stop signal at loop steps around the result "
-          "store of a dry run (every step in the thorough tier): a job whose disposition was reported must have its result stored. Outcomes include eager responses given by a dependency. Job.result is read on the enqueued Job object after every execution, not only at the end.",
+          "store of a dry run (every step in the thorough tier): a job whose disposition was reported must have its result stored. Outcomes include eager responses given by a dependency. Job.result is read on the enqueued Job object after every execution, not only at the end. A run with a failing store that runs into the horizon while the fault-free run settled is a stalled worker.",
   "note": _MODEL + _SRV + " AMQP scenarios use in-memory bucket brokers."},
  {"property_id": "C10", "level": "exploration", "design_ref": "DESIGN.md §4 C10",
   "technique": "scenario property-based testing of messages_limit (bound, self-stop, untouched remainder) and of the run-on-enqueue testing modifier",
@@ -133,7 +134,7 @@ CHECKS = [
           "queue, each succeeding job executed exactly once. bulk-*: 100-300 (mostly delayed, distinct due times) messages drained by 2-3 "
           "concurrent consumers, each handed out exactly once. Redis maintenance runs under non-UTC host zones. Half of the Redis / RabbitMQ histories end with every client dying and "
           "a new one draining the queue: nothing acknowledged comes back. workers-stop-*: workers are stopped and replaced while jobs run; "
-          "maintenance runs aimed at execution deadlines; pause/unpause of consumers; a single-client variant. Statistical over histories and latency vectors.",
+          "maintenance runs aimed at execution deadlines; pause/unpause of consumers; a single-client variant. limit-handback: a worker over several queues reaches its message limit with messages of other queues in its hands - afterwards each is in its queue exactly once. Statistical over histories and latency vectors.",
   "note": _MODEL + _SRV + " Open known finding D24 (Redis maintenance reclaims messages of live consumers after the execution timeout) is excluded by signature."},
  {"property_id": "C15", "level": "exploration", "design_ref": "DESIGN.md §4 C15",
   "technique": "model-based property-based testing of delivery order (single consumer, single priority) with drain / continuous-backlog / reject-and-reawait histories, 3 brokers",
@@ -141,7 +142,7 @@ CHECKS = [
           "one; a returned message precedes everything enqueued after its return; nothing matching starves while the consumer polls; "
           "queue lengths cross Redis's fetch window of 10; a spinning broker call (step watchdog) is reported; foreign-run mode puts 10-30 "
           "foreign-topic messages ahead of own ones, with returns and a second consumer eating the run; pause mode pauses and resumes the "
-          "consumer while messages (some prefetched) wait; a third of the cases mix several priority levels in the queue; message timestamps older than their enqueue instant; a returned message that carries an already-due schedule; racing mode lets a second "
+          "consumer while messages (some prefetched) wait; a third of the cases mix several priority levels in the queue; message timestamps older than their enqueue instant; a returned message that carries an already-due schedule; on Redis an id enqueued again while it waits keeps its place; racing mode lets a second "
           "client change the Redis queue between the consumer's read and its transaction; bodies up to 100 kB; bulk enqueues of 60-150.",
   "note": _MODEL + _SRV + " Open known finding D20 (RabbitMQ foreign-topic head-of-line blocking under a small prefetch limit) is excluded by signature."},
  {"property_id": "C16", "level": "exploration", "design_ref": "DESIGN.md §4 C16",
@@ -149,7 +150,7 @@ CHECKS = [
   "text": "Per handle a small state model (usable / refused by category / refused by budget / consumed) predicts for every generated call whether "
           "it raises and which single broker call it may cause (observed at the connection boundary); actor programmes check callback order, "
           "position and value of the lazily placed result store, and that nothing runs after the eager response. dependency-eager: the eager response is given by a dependency of the actor - one "
-          "terminal action, body never entered, nothing reported on top; a second action attempted in a finally block is refused. One-shot broker faults: an action whose broker call fails leaves the handle usable and its retry state unchanged.",
+          "terminal action, body never entered, nothing reported on top; a second action attempted in a finally block is refused. One-shot broker faults: an action whose broker call fails leaves the handle usable and its retry state unchanged. Actors may give the eager response inside their own try / except Exception.",
   "note": _MODEL + _SRV},
  {"property_id": "C17", "level": "exploration", "design_ref": "DESIGN.md §4 C17",
   "technique": "differential property-based testing: the same lifecycle script with and without generated subscriber sets (signatures, sync/async, raising), signal-log oracle, two connections",
@@ -169,7 +170,7 @@ CHECKS = [
           "failure must follow the retry ladder without running the body; unsupported declarations must raise at declaration time. Several "
           "messages are resolved concurrently through shared Depends objects whose providers suspend; alias nodes are separate Depends "
           "objects over one provider function, overridable on their own; providers may return exception objects; dependency parameters of "
-          "providers may carry default values or be keyword-only; an override with a supported acyclic provider must be accepted.",
+          "providers may carry default values or be keyword-only; an override with a supported acyclic provider must be accepted; sync providers behind an async functools.wraps decorator.",
   "note": _MODEL + " In-memory broker only (dependency resolution is broker-independent)."},
  {"property_id": "C19", "level": "exploration", "design_ref": "DESIGN.md §4 C19",
   "technique": "property-based testing (Hypothesis) of pure functions against arithmetic oracles under a pinned clock",
